@@ -29,6 +29,15 @@ def make_quant_inputs(d, rng, n_exp=2, silac=0, tmt=0, n_psm=None, diann=False):
                      "intensity": float(rng.randint(1, 2000)) * 1024.0 if rng.random() < 0.93 else None, "id": i,
                      "silac": [float(rng.randint(0, 500)) * 512.0 for _ in range(silac)],
                      "tmt": [float(rng.randint(0, 300)) * 256.0 for _ in range(3 * tmt)]})
+    # one protein quantified by a single precursor in a single experiment: a group without any sample pair to compare
+    uniq = [pep for pep in peptides if len(pmap[pep]) == 1]
+    if uniq and rows:
+        lone_pep = rng.choice(uniq)
+        lone = pmap[lone_pep][0]
+        rows = [r for r in rows if lone not in r["proteins"]]
+        rows.append({"peptide": lone_pep, "mod": lone_pep, "proteins": [lone], "pep": 1e-6, "charge": 2, "experiment": exps[0],
+                     "raw": "raw_" + exps[0] + "a", "fraction": 1, "intensity": 4096.0, "id": n,
+                     "silac": [1024.0 * (k + 1) for k in range(silac)], "tmt": [256.0] * (3 * tmt)})
     ev = os.path.join(d, "report.tsv" if diann else "evidence.txt")
     if diann:
         filegen.write_diann(ev, [dict(r, pep=(r["pep"] if r["pep"] is not None else 0.5),
